@@ -115,6 +115,14 @@ impl<Out: ExchangeData, Item: ExchangeData> SideReceiver<Out, Item> {
     }
 }
 
+/// Whether a message contains nothing but `StreamElement::Terminate`.
+fn only_terminate<T: ExchangeData>(message: &NetworkMessage<T>) -> bool {
+    message
+        .clone()
+        .into_iter()
+        .all(|item| matches!(item, StreamElement::Terminate))
+}
+
 /// This receiver is able to receive data from two previous blocks.
 ///
 /// To do so it will first select on the two channels, and wrap each element into an enumeration
@@ -237,12 +245,20 @@ impl<OutL: ExchangeData, OutR: ExchangeData> BinaryStartReceiver<OutL, OutR> {
         let data = if self.first_message && (self.left.cached || self.right.cached) {
             debug_assert!(!self.left.cached || self.left.cache_full);
             debug_assert!(!self.right.cached || self.right.cache_full);
-            self.first_message = false;
-            if self.left.cached {
+            let data = if self.left.cached {
                 Side::Right(self.right.recv(timeout))
             } else {
                 Side::Left(self.left.recv(timeout))
-            }
+            };
+            // Keep asking the other side first until it shows that a new iteration has really
+            // started: a timeout or a message made only of `Terminate` does not, and replaying
+            // the cache at that point would feed a phantom iteration to the next operators.
+            self.first_message = match &data {
+                Side::Left(Ok(message)) => only_terminate(message),
+                Side::Right(Ok(message)) => only_terminate(message),
+                Side::Left(Err(_)) | Side::Right(Err(_)) => true,
+            };
+            data
         } else if self.left.cached && self.left.cache_full && !self.left.cache_finished() {
             // The left side is cached, therefore we can access it immediately
             return Ok(self.left.next_cached_item());
